@@ -45,6 +45,7 @@ type srvRun struct {
 	note  string
 	res   *Result
 	nOut  int32 // out/closed/cb/deliver events logged so far
+	rst   *tr.Event
 }
 
 var (
@@ -149,6 +150,7 @@ func roleRes(res *lime.AuthenticationResult, err error) string {
 func getServer(cfg Cfg) (*liveServer, error) {
 	key := cfg
 	key.Flavour = "server"
+	key.Rst = ""
 	srvMu.Lock()
 	defer srvMu.Unlock()
 	if ls, ok := servers[key]; ok {
@@ -296,6 +298,24 @@ func getServer(cfg Cfg) (*liveServer, error) {
 	return nil, fmt.Errorf("could not start server: %v", lastErr)
 }
 
+// server-side transports by the address of their peer (hook sess.start), to look at them after the
+// client has gone
+var srvTransports sync.Map
+
+func init() {
+	prev := lime.VerifHook
+	lime.VerifHook = func(point string, args ...interface{}) {
+		if point == "sess.start" && len(args) == 2 {
+			if t, ok := args[1].(lime.Transport); ok && t.RemoteAddr() != nil {
+				srvTransports.Store(t.RemoteAddr().String(), t)
+			}
+		}
+		if prev != nil {
+			prev(point, args...)
+		}
+	}
+}
+
 // ---- raw client over a real socket -----------------------------------------
 
 type sockReader struct {
@@ -398,6 +418,12 @@ func ReplayServer(c Case) *Result {
 			raw.SetReadDeadline(time.Time{})
 		}
 	}
+	lastIn := -1
+	for i, e := range c.Obs {
+		if e.K == "in" {
+			lastIn = i
+		}
+	}
 	// expected number of asynchronous events after each script step
 	var target int32
 	closedSelf := false
@@ -451,6 +477,35 @@ func ReplayServer(c Case) *Result {
 			conn.SetWriteDeadline(time.Now().Add(2 * time.Second))
 			if _, werr := conn.Write(Concretise(e, sid, r.names)); werr != nil {
 				r.note += "client-write-failed;"
+			}
+			if c.Cfg.Rst == "y" && i == lastIn {
+				// the client does not wait for the answer: it resets the connection, so whatever the server
+				// still wants to say cannot be written. Is the server side released all the same?
+				local := raw.LocalAddr().String()
+				stopReader()
+				if tc, ok := raw.(*net.TCPConn); ok {
+					tc.SetLinger(0)
+				}
+				raw.Close()
+				closedSelf = true
+				resv := "leaked"
+				dl := time.Now().Add(2500 * time.Millisecond)
+				for time.Now().Before(dl) {
+					if v, ok := srvTransports.Load(local); ok {
+						if !v.(lime.Transport).Connected() {
+							resv = "released"
+							break
+						}
+					}
+					time.Sleep(2 * time.Millisecond)
+				}
+				if _, ok := srvTransports.Load(local); !ok {
+					resv = "unseen" // the server never got as far as serving it
+				}
+				srvTransports.Delete(local)
+				r.rst = &tr.Event{K: "srvconn", Res: resv}
+				r.log(tr.Event{K: "end", Res: "quiet"})
+				return res
 			}
 		}
 		if !r.waitOuts(target, 2*time.Second) {
@@ -511,6 +566,20 @@ func (r *srvRun) finalize() {
 		norm = append(norm, e)
 	}
 	out = append(norm, cbs...)
+	if r.rst != nil {
+		// the client did not stay to observe: what counts is what became of the server side
+		kept := []tr.Event{{K: "in", Kind: "eof", Wire: "clear"}, *r.rst}
+		for _, e := range out {
+			if e.K == "cbEst" || e.K == "cbFin" || e.K == "panic" {
+				kept = append(kept, e)
+			}
+		}
+		out = append(kept, tr.Event{K: "end", Res: "quiet"})
+		r.res.Actual = out
+		r.res.Note += r.note
+		r.res.Match = true
+		return
+	}
 	r.res.Actual = out
 	r.res.Note += r.note
 	r.res.Match = sameObs(r.c.Obs, out)
